@@ -113,6 +113,7 @@ func parseReturnStmt(stmt *ast.ReturnStmt, pkg *types.Info, out *Contract) {
 					default:
 						panic("unsupported return value")
 					}
+					out.IsReturnBlob = false
 				}
 			} else if method.Sel.Name == "Blob" {
 				if len(call.Args) >= 3 { // c.Blob(200, name, bytes)
